@@ -78,7 +78,7 @@ class MarkovNetwork(UndirectedGraph):
         if ebunch:
             self.add_edges_from(ebunch)
         self.factors = []
-        self.latents = latents
+        self.latents = list(latents)
 
     def add_edge(self, u, v, **kwargs):
         """
@@ -792,7 +792,7 @@ class MarkovNetwork(UndirectedGraph):
         >>> G_copy.get_factors()
         []
         """
-        clone_graph = MarkovNetwork(self.edges())
+        clone_graph = MarkovNetwork(self.edges(), latents=self.latents)
         clone_graph.add_nodes_from(self.nodes())
 
         if self.factors:
